@@ -53,7 +53,10 @@ func (g *gen) val() string {
 	return fmt.Sprintf("%02x", g.r.Intn(256))
 }
 
-func (g *gen) reset(cache int, fast bool) {
+func (g *gen) reset(cache int, fast bool) { g.resetN(cache, fast, 54) }
+
+// resetN: `use` is the number of configurations a C24 case runs on.
+func (g *gen) resetN(cache int, fast bool, use int) {
 	g.present = map[int]bool{}
 	g.snaps = map[int]map[int]bool{}
 	g.vers = nil
@@ -64,6 +67,8 @@ func (g *gen) reset(cache int, fast bool) {
 			f = 1
 		}
 		g.w.Op("cfg %d %d", cache, f)
+	} else {
+		g.w.Op("use %d", use)
 	}
 }
 
@@ -475,7 +480,11 @@ func (g *gen) boundary(thorough bool) {
 	}
 	for _, ru := range runs {
 		g.w.Case("b/run-" + ru.name)
-		g.reset(ru.n%3, ru.n%2 == 0)
+		use := 54
+		if !thorough && ru.n > 100 {
+			use = 6
+		}
+		g.resetN(ru.n%3, ru.n%2 == 0, use)
 		every := ru.n / 6
 		for i := 0; i < ru.n; i++ {
 			j := i
@@ -611,33 +620,34 @@ func (g *gen) boundary(thorough bool) {
 
 func (g *gen) random(thorough bool) {
 	type prof struct {
-		name             string
-		cases, n, u      int
-		pSet, pRm, pVer  int
-		preload          int
+		name            string
+		cases, n, u     int
+		pSet, pRm, pVer int
+		preload         int
+		use             int // C24: number of configurations
 	}
 	profs := []prof{
-		{"tiny", 12, 120, 6, 30, 25, 20, 0},
-		{"small", 10, 300, 40, 35, 25, 12, 0},
-		{"leafy", 6, 500, 120, 45, 25, 8, 40},
-		{"churn", 3, 900, 400, 40, 35, 6, 300},
-		{"deep", 1, 1200, 3000, 30, 45, 3, 1500},
+		{"tiny", 12, 120, 6, 30, 25, 20, 0, 54},
+		{"small", 10, 300, 40, 35, 25, 12, 0, 54},
+		{"leafy", 6, 500, 120, 45, 25, 8, 40, 18},
+		{"churn", 3, 900, 400, 40, 35, 6, 300, 9},
+		{"deep", 1, 1200, 3000, 30, 45, 3, 1500, 6},
 	}
 	if thorough {
 		profs = []prof{
-			{"tiny", 60, 150, 6, 30, 25, 20, 0},
-			{"small", 40, 400, 40, 35, 25, 12, 0},
-			{"leafy", 24, 700, 120, 45, 25, 8, 40},
-			{"churn", 10, 1500, 400, 40, 35, 6, 300},
-			{"deep", 4, 3000, 3000, 30, 45, 3, 1800},
-			{"deeper", 1, 4000, 12000, 25, 55, 1, 9000},
+			{"tiny", 60, 150, 6, 30, 25, 20, 0, 54},
+			{"small", 40, 400, 40, 35, 25, 12, 0, 54},
+			{"leafy", 24, 700, 120, 45, 25, 8, 40, 54},
+			{"churn", 10, 1500, 400, 40, 35, 6, 300, 54},
+			{"deep", 4, 3000, 3000, 30, 45, 3, 1800, 27},
+			{"deeper", 1, 4000, 12000, 25, 55, 1, 9000, 12},
 		}
 	}
 	for _, p := range profs {
 		for c := 0; c < p.cases; c++ {
 			g.w.Case(fmt.Sprintf("r/%s-%d", p.name, c))
 			g.maxKeep = 2
-			g.reset([]int{0, 1, 10000}[g.r.Intn(3)], g.r.Bool())
+			g.resetN([]int{0, 1, 10000}[g.r.Intn(3)], g.r.Bool(), p.use)
 			if p.preload > 0 {
 				// preload in a random style so that the random phase starts on a tall tree
 				style := g.r.Intn(3)
@@ -673,7 +683,7 @@ func (g *gen) malformed() {
 	g.w.Op("set 01 02")
 	bad := []string{"set", "set 01", "set 01 02 03", "set 0 01", "set zz 01", "set 01 0g", "rm", "rm 01 02", "get", "get 0", "has", "size 1", "idx", "idx x", "idx 1 2", "idx +1",
 		"gwi", "it", "it asc", "it up - - 0", "it asc - -", "it asc - - x", "it asc - - -1", "it asc zz - 0", "iter", "iter x", "save 1", "rollback 1", "load", "load x", "load 0", "load -1",
-		"prune", "prune x", "prune -1", "at", "at 1", "at x get 01", "at 0 get 01", "at 1 set 01 02", "at 1 save", "bogus", "SET 01 02", "hash 1", "shape x", "export", "export x", "cfg", "vers 1", "ver 1", "lhash 1", "audit 1", "reopen 1"}
+		"prune", "prune x", "prune -1", "at", "at 1", "at x get 01", "at 0 get 01", "at 1 set 01 02", "at 1 save", "bogus", "SET 01 02", "hash 1", "shape x", "export", "export x", "cfg", "use", "use 0", "use 3", "vers 1", "ver 1", "lhash 1", "audit 1", "reopen 1"}
 	for _, b := range bad {
 		g.w.Op("%s", b)
 	}
